@@ -42,6 +42,35 @@ Proof.
   - apply (bd_probe_ok_of_scan p [] r). cbn [app]. rewrite <- E. exact H.
 Qed.
 
+(* ---- since the repair of K1 the look-ahead scans out_buf ++ unconsumed bytes, i.e. a prefix of the WHOLE line: a size
+        line with a valid value (first non-control byte a hex digit) passes it whatever the cuts ---- *)
+Lemma bd_zb_eqb c k : (zb c =? Z.of_N k) = (c =? k)%N.
+Proof. unfold zb. destruct (c =? k)%N eqn:E; [apply N.eqb_eq in E; subst; apply Z.eqb_refl|apply N.eqb_neq in E; apply Z.eqb_neq; lia]. Qed.
+Lemma bd_zb_leb_l c k : (Z.of_N k <=? zb c) = (k <=? c)%N.
+Proof. unfold zb. destruct (k <=? c)%N eqn:E; [apply N.leb_le in E; apply Z.leb_le; lia|apply N.leb_gt in E; apply Z.leb_gt; lia]. Qed.
+Lemma bd_zb_leb_r c k : (zb c <=? Z.of_N k) = (c <=? k)%N.
+Proof. unfold zb. destruct (c <=? k)%N eqn:E; [apply N.leb_le in E; apply Z.leb_le; lia|apply N.leb_gt in E; apply Z.leb_gt; lia]. Qed.
+Lemma bd_ctl_same b : is_chunk_ctl b = rs_is_chunked_ctl_char b.
+Proof.
+  unfold is_chunk_ctl, rs_is_chunked_ctl_char. cbv zeta.
+  change 13 with (Z.of_N 13); change 10 with (Z.of_N 10); change 32 with (Z.of_N 32); change 9 with (Z.of_N 9); change 11 with (Z.of_N 11); change 12 with (Z.of_N 12).
+  rewrite (bd_zb_eqb b 13), (bd_zb_eqb b 10), (bd_zb_eqb b 32), (bd_zb_eqb b 9), (bd_zb_eqb b 11), (bd_zb_eqb b 12). reflexivity.
+Qed.
+Lemma bd_hex_same b : is_hex_digit b = rs_is_chunklen_char b.
+Proof.
+  unfold is_hex_digit, rs_is_chunklen_char.
+  change 97 with (Z.of_N 97); change 102 with (Z.of_N 102); change 65 with (Z.of_N 65); change 70 with (Z.of_N 70).
+  rewrite (bd_zb_leb_l b 97), (bd_zb_leb_r b 102), (bd_zb_leb_l b 65), (bd_zb_leb_r b 70). reflexivity.
+Qed.
+Lemma bd_value_scan : forall s, 0 <= fst (parse_chunked_length s) -> rs_probe_scan s = true.
+Proof.
+  induction s as [|b s IH]; intros H; [reflexivity|].
+  cbn [rs_probe_scan]. rewrite <- bd_ctl_same. unfold parse_chunked_length in *. cbn [drop_while] in H.
+  destruct (is_chunk_ctl b) eqn:Eb; [apply IH; exact H|].
+  rewrite <- bd_hex_same. cbn [take_while] in H. destruct (is_hex_digit b); [reflexivity|].
+  cbn in H. exfalso. revert H. vm_compute. intros H; apply H; reflexivity.
+Qed.
+
 Section Res.
 Variable cb : cb_oracle.
 Variable g : cfg.
@@ -99,27 +128,28 @@ Qed.
 (* ================= line assembly, response side: up to the TCP chunk that contains the LF ================= *)
 Lemma bd_rs_assemble o : forall rem c lrest rest,
   bd_rs_inv o c -> c_out_state c = RES_BODY_CHUNKED_LENGTH -> k_consume (c_out c) = k_read (c_out c) ->
-  bd_rs_rest c ++ concat rem = lrest ++ LF :: rest -> bd_no_lf lrest = true -> bd_suffixes_ok lrest = true ->
+  bd_rs_rest c ++ concat rem = lrest ++ LF :: rest -> bd_no_lf lrest = true ->
+  rs_probe_scan (bd_rs_pending c ++ lrest ++ [LF]) = true ->
   (length (bd_rs_pending c) + length lrest + 1 <= g_field_limit_hard g)%nat ->
   Forall (fun d => d <> []) rem ->
   exists c2 rem2 l2 tl2,
     bd_rs_reach cb g c rem c2 rem2 /\ bd_rs_inv o c2 /\ c_out_state c2 = RES_BODY_CHUNKED_LENGTH /\
     k_consume (c_out c2) = k_read (c_out c2) /\
-    bd_rs_rest c2 = l2 ++ LF :: tl2 /\ bd_no_lf l2 = true /\ bd_probe_ok [] l2 = true /\
+    bd_rs_rest c2 = l2 ++ LF :: tl2 /\ bd_no_lf l2 = true /\ bd_probe_ok (bd_rs_pending c2) l2 = true /\
     bd_rs_pending c2 ++ l2 = bd_rs_pending c ++ lrest /\
     tl2 ++ concat rem2 = rest /\ Forall (fun d => d <> []) rem2 /\ bd_rs_same c c2.
 Proof.
   induction rem as [|d' rem IH]; intros c lrest rest Inv Hs Hc Hw Hnl Hsf Hhard Hrem.
   - cbn [concat] in Hw. rewrite app_nil_r in Hw.
     exists c, [], lrest, rest. bd_rsplits; auto; try constructor; try apply app_nil_r; try apply bd_rs_same_refl.
-    apply (bd_suffix_probe lrest lrest []); [exact Hsf|symmetry; apply app_nil_r].
+    apply (bd_probe_ok_of_scan lrest (bd_rs_pending c) [LF]); exact Hsf.
   - destruct (Nat.lt_ge_cases (length lrest) (length (bd_rs_rest c))) as [Hlt|Hge].
     + assert (exists tl, bd_rs_rest c = lrest ++ LF :: tl /\ tl ++ concat (d' :: rem) = rest) as (tl & E1 & E2).
       { destruct (bd_app_prefix' lrest (bd_rs_rest c) (LF :: rest) (concat (d' :: rem))) as (x & X1 & X2); [symmetry; exact Hw|lia|].
         destruct x as [|x0 x]; [rewrite app_nil_r in X1; rewrite X1 in Hlt; lia|].
         cbn in X2. inversion X2; subst x0. exists x. split; [exact X1|reflexivity]. }
       exists c, (d' :: rem), lrest, tl. bd_rsplits; auto; try constructor; try apply bd_rs_same_refl.
-      apply (bd_suffix_probe lrest lrest []); [exact Hsf|symmetry; apply app_nil_r].
+      apply (bd_probe_ok_of_scan lrest (bd_rs_pending c) [LF]); exact Hsf.
     + destruct (bd_app_prefix' (bd_rs_rest c) lrest (concat (d' :: rem)) (LF :: rest) Hw Hge) as (lrest' & Hb & Hw').
       pose proof (Forall_inv Hrem) as Hd'. pose proof (Forall_inv_tail Hrem) as Hrem'. cbn beta in Hd'.
       assert (Hnl2 : bd_no_lf (bd_rs_rest c) = true /\ bd_no_lf lrest' = true).
@@ -129,15 +159,15 @@ Proof.
       assert (Hfn : rs_state_fn cb g (c_out_state c) c = rs_RES_BODY_CHUNKED_LENGTH g c) by (rewrite Hs; reflexivity).
       assert (Hun : rs_unconsumed c = []).
       { unfold rs_unconsumed. rewrite Hd, Hc. unfold rs_sub. rewrite Nat.sub_diag. reflexivity. }
-      assert (Hpr : bd_probe_ok (rs_unconsumed c) (bd_rs_rest c) = true).
-      { rewrite Hun. apply (bd_suffix_probe lrest (bd_rs_rest c) lrest'); assumption. }
+      assert (Hpr : bd_probe_ok (bd_rs_pending c ++ rs_unconsumed c) (bd_rs_rest c) = true).
+      { rewrite Hun, app_nil_r. apply (bd_probe_ok_of_scan (bd_rs_rest c) (bd_rs_pending c) (lrest' ++ [LF])).
+        rewrite Hb, <- app_assoc in Hsf. exact Hsf. }
       assert (Hfuel : (length (bd_rs_rest c) < rs_bytes_fuel c)%nat).
       { unfold rs_bytes_fuel. rewrite Hlen. unfold bd_rs_rest. rewrite Hd, skipn_length. lia. }
       pose proof (bd_rs_length_loop g (bd_rs_rest c) c (rs_bytes_fuel c) []) as Hloop.
       rewrite app_nil_r in Hloop.
       specialize (Hloop (ex_intro _ d (conj Hd (conj Hlen Hrd))) ltac:(lia) eq_refl Hnl1 Hfuel I Hpr).
       assert (Hlr : length lrest = (length (bd_rs_rest c) + length lrest')%nat) by (rewrite Hb at 1; apply app_length).
-      assert (Hsf' : bd_suffixes_ok lrest' = true) by (rewrite Hb in Hsf; eapply bd_suffixes_ok_app; eauto).
       (* the parser after the exit *)
       assert (Hexit : exists c2, bd_rs_iter cb g c = inl (rs_set_out_status c_HTP_STREAM_DATA c2, c_HTP_STREAM_DATA) /\
                 bd_rs_inv o c2 /\ c_out_state c2 = RES_BODY_CHUNKED_LENGTH /\ bd_rs_same c c2 /\
@@ -163,6 +193,8 @@ Proof.
       assert (W3 : bd_rs_rest c3 ++ concat rem = lrest' ++ LF :: rest) by (unfold c3; rewrite B1; exact Hw').
       assert (P3 : bd_rs_pending c3 = bd_rs_pending c ++ bd_rs_rest c) by (rewrite <- Hbuf2; unfold bd_rs_pending, c3; rewrite B7; reflexivity).
       assert (H3 : (length (bd_rs_pending c3) + length lrest' + 1 <= g_field_limit_hard g)%nat) by (rewrite P3, app_length; lia).
+      assert (Hsf' : rs_probe_scan (bd_rs_pending c3 ++ lrest' ++ [LF]) = true).
+      { rewrite P3, <- app_assoc. rewrite Hb, <- app_assoc in Hsf. exact Hsf. }
       destruct (IH c3 lrest' rest I3 S3 C3 W3 Hnl2 Hsf' H3 Hrem') as (c4 & rem4 & l4 & tl4 & R4 & I4 & S4 & C4 & Rs4 & N4 & Pr4 & B4' & W4 & F4 & Sm4).
       exists c4, rem4, l4, tl4. bd_rsplits; auto.
       * eapply bd_sr_next; [exact Hit|exact R4].
